@@ -30,10 +30,11 @@ func (s *skel) line(format string, a ...interface{}) {
 
 func (s *skel) tr() {
 	s.trace++
-	s.line("fmt.Println(%d)", s.trace)
-	// a step of one local counter next to every trace: steps at the end of a block and right after it are adjacent
-	// in the bytecode (code an optimizer might merge across the jump target between them)
+	// steps of one local counter around every trace: a step at the end of a block and the step right after the block
+	// are adjacent in the bytecode (code an optimizer might merge across the jump target between them)
 	s.line("c++")
+	s.line("fmt.Println(%d)", s.trace)
+	s.line("c += 2")
 }
 
 // a construct is emitted around a body callback; kinds are listed in skelKinds.
